@@ -874,7 +874,8 @@ def exhaustive_shard(arg):
         f = oracle(c, I)
         if f:
             res.failures.append(f)
-        res.nontrivial.add(json.dumps(c, sort_keys=True))
+        if len(c['s']) <= 4:       # keys of the short ones only: the merged set stays small in the thorough tier
+            res.nontrivial.add(json.dumps(c, sort_keys=True))
     compare(cases, I, res, stream='exhaustive-wide')
     res.count('exhaustive-wide-strings', len(cases))
     return res
